@@ -235,6 +235,8 @@ func propC10() *PropSpec {
 			js = append(js, jobsN("xml", "VerifXMLBytesContract", pick(rng(0, 5), rng(0, 6)), "(*M).Bytes error contract, xml")...)
 			js = append(js, jobsN("css", "VerifCSSTotal", pick(rng(0, 2), rng(0, 3)), "css.Minify(arbitrary bytes)")...)
 			js = append(js, jobsN("html", "VerifHTMLTotal", pick(rng(0, 3), rng(0, 4)), "html.Minify(arbitrary bytes)")...)
+			js = append(js, jobsN("css", "VerifCSSDeclTotal", pick(rng(0, 2), rng(0, 3)), "css: a{P:F(ARG<end> for 14 properties x 10 functions x 5 endings, ARG = n bytes over a punctuation alphabet")...)
+			js = append(js, jobsN("svg", "VerifSVGTruncated", []int{0}, "svg: every prefix of document templates")...)
 			js = append(js, jobsN("svg", "VerifSVGTotal", pick(rng(0, 4), rng(0, 5)), "svg.Minify(arbitrary bytes)")...)
 			js = append(js, jobsN("html", "VerifHTMLAttrURL", pick(rng(4, 6), rng(4, 7)), "html: <tag urlattr=\"V\">, V = n bytes over a URL-scheme alphabet (panic freedom on template-shaped input)")...)
 			js = append(js, jobsN("js", "VerifJSTotal", pick(rng(0, 2), rng(0, 3)), "js.Minify(arbitrary bytes)")...)
@@ -269,6 +271,11 @@ func propC09() *PropSpec {
 			js = append(js, jobsN("svg", "VerifSVGReaccept", pick(rng(0, 3), rng(0, 4)), "svg: accepted => output accepted again (arbitrary bytes)")...)
 			js = append(js, jobsN("html", "VerifHTMLReaccept", pick(rng(0, 3), rng(0, 3)), "html: accepted => output accepted again (arbitrary bytes)")...)
 			js = append(js, jobsN("js", "VerifJSReaccept", pick(rng(0, 2), rng(0, 3)), "js: accepted => output accepted again (arbitrary bytes)")...)
+			js = append(js, jobsN("js", "VerifJSForInit", []int{0}, "js: 10 statement prefixes x 6 loops merged into for-initialisers (in operator, calls, arrows): output parses and is stable")...)
+			js = append(js, jobsN("js", "VerifJSNumberMember", pick(rng(1, 4), rng(1, 5)), "js: (numeric literal of n symbolic bytes).p is accepted again")...)
+			js = append(js, jobsN("js", "VerifJSStringUnits", pick(rng(1, 2), rng(1, 2)), "js: string literal units incl. escaped </script (no </script may appear)")...)
+			js = append(js, jobsN("svg", "VerifSVGTree", []int{0}, "svg: namespaced / editor / foreignObject templates: output well-formed")...)
+			js = append(js, jobsN("svg", "VerifSVGPathNumbers", pick([]int{2}, []int{2, 4}), "svg: number notations in path data: output is valid path data")...)
 			js = append(js, Job{Pkg: "json", Fn: "VerifJSONTwin", N: 3, ExpectFail: true, Desc: "vacuity twin"})
 			return js
 		},
@@ -297,6 +304,7 @@ func propC03() *PropSpec {
 			js = append(js, jobsN("html", "VerifHTMLText", pick(rng(1, 2), rng(1, 2)), "T1<X>T2</X>T3 for 13 element kinds, KeepWhitespace/KeepEndTags symbolic: rendered word sequence")...)
 			js = append(js, jobsN("html", "VerifHTMLPre", pick(rng(0, 3), rng(0, 5)), "pre/textarea content untouched")...)
 			js = append(js, jobsN("html", "VerifHTMLTree", pick(rng(1, 4), rng(1, 5)), "conforming trees built by n symbolic actions over 13 element kinds + text + comments; reference tree builder on input and output")...)
+			js = append(js, jobsN("html", "VerifHTMLStartTags", []int{0}, "html/head/body/colgroup start tags with and without attributes")...)
 			js = append(js, Job{Pkg: "html", Fn: "VerifHTMLTwin", N: 0, ExpectFail: true, Desc: "vacuity twin"})
 			return js
 		},
@@ -320,6 +328,8 @@ func propC04() *PropSpec {
 				return b
 			}
 			js = append(js, jobsN("css", "VerifCSSHexColor", pick([]int{3, 4, 6}, []int{3, 4, 6, 8}), "prop:#<n symbolic hex digits>, 6 colour properties")...)
+			js = append(js, jobsN("css", "VerifCSSHexAlpha", []int{0}, "#rrggbbaa: 5 colours x symbolic alpha digits x 5 properties incl. shorthands")...)
+			js = append(js, jobsN("css", "VerifCSSUnicodeRange", pick(rng(1, 2), rng(1, 3)), "unicode-range with n ranges out of 15: same code point set")...)
 			js = append(js, jobsN("css", "VerifCSSColorName", []int{0}, "every CSS colour keyword x 3 spellings x 6 properties")...)
 			js = append(js, jobsN("css", "VerifCSSNotAColor", pick(rng(3, 3), rng(3, 4)), "identifiers of n symbolic letters that are not colour keywords pass through")...)
 			js = append(js, jobsN("css", "VerifCSSColorFunc", []int{0}, "hsl()/hsla()/rgb()/rgba() on argument grids")...)
@@ -358,6 +368,7 @@ func propC01() *PropSpec {
 			js = append(js, jobsN("js", "VerifJSStmts", pick([]int{1}, []int{1, 2}), "n statements out of 15 templates with leaf expressions")...)
 			js = append(js, jobsN("js", "VerifJSTail", pick([]int{1}, []int{1}), "n prefix statements + one tail statement (merging into return/throw/if)")...)
 			js = append(js, jobsN("js", "VerifJSReturnTail", pick([]int{2, 3}, []int{2, 3}), "n expression statements + return/throw tail")...)
+			js = append(js, jobsN("js", "VerifJSBoolCond", pick([]int{0}, []int{0, 1}), "x=(C?Y:false) family with C = negations/nullish tests joined by || and &&, no redundant parentheses")...)
 			js = append(js, jobsN("js", "VerifJSNested", pick([]int{0}, rng(0, 3)), "x=(C?X:Y) / (X&&Y) / (X||Y) / !(X??Y) with one operand of depth 1: grouping inside the rewrites")...)
 			js = append(js, Job{Pkg: "js", Fn: "VerifJSLitTwin", N: 0, ExpectFail: true, Desc: "vacuity twin (kernels)"})
 			js = append(js, Job{Pkg: "js", Fn: "VerifJSEvalTwin", N: 0, ExpectFail: true, Desc: "vacuity twin (evaluator)"})
